@@ -4,7 +4,8 @@ Reflection over the modules as they are imported NOW:
   pack.REQ_ORDER / pack.RESP_ORDER        (what http_redirect_message iterates over when signing)
   sigver.REQ_ORDER / sigver.RESP_ORDER    (what verify_redirect_signature iterates over)
   sigver.SIGNER_ALGS                      (key set + the digest each shared signer object carries)
-  sigver.RSACrypto.get_signer             (shared module-level object with the key stored on it, or a fresh one)
+  sigver.RSACrypto.get_signer             (shared module-level object with the key stored on it, or a fresh one;
+                                           and: no key remembered on a long-lived backend between calls)
   pack.SIG_ALLOWED_ALG                    (values accepted by http_redirect_message's assert)
   pack.urlencode / sigver.urlencode       (which percent-encoder each side really uses: measured on all
                                            256 single bytes and classified; only the treatment of '~'
@@ -91,7 +92,32 @@ def measure_shared(sigver):
                 obj.key = saved
     if len(verdicts) != 1:
         raise TypeError("get_signer behaves differently for different algorithms: %r" % verdicts)
-    return verdicts.pop()
+    shared = verdicts.pop()
+    if not shared:
+        measure_long_lived(sigver)
+    return shared
+
+
+def measure_long_lived(sigver):
+    """The model's RSACrypto has no state of its own besides its key: a handle is made from `sigkey or self.key`
+    of THIS call.  Measured on one long-lived backend per algorithm, whose first use is a call with a foreign key
+    (get_signer(alg, sigkey=K) / verify_redirect_signature(.., sigkey=K)): the ordinary calls that follow must hand
+    out signers over the backend's own key, sigkey calls signers over the sigkey.  Anything else is refused."""
+    for alg in sigver.SIGNER_ALGS:
+        for first in ("get_signer", "verify"):
+            k1, k2, k3 = object(), object(), object()
+            c = sigver.RSACrypto(k1)
+            if first == "get_signer":
+                h = c.get_signer(alg, sigkey=k2)
+                if h.key is not k2:
+                    raise TypeError("get_signer(%s, sigkey=K) does not hand out a signer over K" % alg)
+            else:
+                sigver.verify_redirect_signature({"SAMLRequest": "eA==", "SigAlg": alg, "Signature": "AAAA"}, c, None, k2)
+            seq = [c.get_signer(alg), c.get_signer(alg, k3), c.get_signer(alg, None), c.get_signer(alg, sigkey=k2), c.get_signer(alg)]
+            if [x.key for x in seq] != [k1, k3, k1, k2, k1] or c.key is not k1:
+                raise TypeError("RSACrypto remembers a key between calls: after %s with a sigkey as first use of %s, get_signer hands out signers "
+                                "over %s (k1 = the backend's own key, k2/k3 = sigkeys; expected k1 k3 k1 k2 k1)" % (
+                                    first, alg, " ".join({id(k1): "k1", id(k2): "k2", id(k3): "k3"}.get(id(x.key), "?") for x in seq)))
 
 
 def regen_redirect():
